@@ -1048,6 +1048,7 @@ func (e *Engine) verifyRoundTrip(ps *PkgSpec, rt *RoundTrip) (res *FuncResult) {
 		}
 	}
 	res.Notes = append(res.Notes, note)
+	e.trustedUsed["roundtrip harnesses: the transport is modelled as exactly Write / WriteByte / WriteString / ReadByte / RemainingBytes without errors; io.ReadFull, encoding/binary PutUintN / UintN (byte split and join of either endianness) and math.Float64bits / Float64frombits (identity on the IEEE bit pattern) are ASSUMED contracts of dependencies"] = true
 	res.Paths = nEnc + nDec
 	return res
 }
